@@ -260,6 +260,21 @@ def py_urldecode(t):
     return bytes(out)
 
 
+ENUM_SEGS = [b"sub", b"..", b".", b"", b"ln_out", b"al", b"alX", b"a.txt", b"index.html", b"ln_up", b"deep", b"..%00"]
+
+
+def enum_targets(depth):
+    """every path of up to `depth` segments over ENUM_SEGS, with and without trailing slash"""
+    out = []
+    for d in range(1, depth + 1):
+        for tup in itertools.product(ENUM_SEGS, repeat=d):
+            t = b"/" + b"/".join(tup)
+            out.append(t)
+            if tup[-1] != b"":
+                out.append(t + b"/")
+    return out
+
+
 def gen_targets(rng, sb, aliases, n, first=()):
     res = list(first)
     while len(res) < n:
@@ -348,7 +363,8 @@ def main():
     c.rule = ("streams: norm = file_server::normalize_path on generated segment strings (names, '.', '..', '', dot-files, near-alias, NUL, "
               "non-UTF-8, long); prefix = is_file_prefix on (near-)canonical path pairs; cidr = check_in_document_root called directly on a "
               "file_server instance (file names incl. NUL) per configuration; req = GET over loopback HTTP against a cppcms::service with "
-              "file_server.enable over the sandbox tree, per configuration (check_symlink x listing x sync/async x 8 alias sets). The model "
+              "file_server.enable over the sandbox tree, per configuration (check_symlink x listing x sync/async/async-handler x 8 alias sets): corpus, "
+              "fixed traversal list, every path of <= 2 (thorough: 3) segments over 12 key segments, random walks of the real tree with mutations. The model "
               "gets the sandbox as a table of realpath/stat/readdir/read answers recorded from libc by the harness. non-trivial = model "
               "outcome is not 404/none (a file, listing, redirect or accepted path) or, for norm/prefix, output differs from input / is 1; "
               "distinct = distinct (configuration, case) lines")
@@ -495,7 +511,8 @@ def main():
                         line = line.strip()
                         if line and not line.startswith("#"):
                             corpus.append(unhex(line))
-            targets = gen_targets(rng, sb, aliases, nreq + len(MALFORMED) + len(corpus), first=corpus + MALFORMED)
+            enum = enum_targets(3 if thorough else 2)
+            targets = gen_targets(rng, sb, aliases, nreq + len(MALFORMED) + len(corpus) + len(enum), first=corpus + MALFORMED + enum)
             fnames = list(dict.fromkeys([py_urldecode(t) for t in rng.sample(targets, min(len(targets), ncidr // 2))] +
                                         [b"/".join(gen_segments(rng, sb, aliases)) if rng.random() < 0.3 else b"/" + b"/".join(gen_segments(rng, sb, aliases))
                                          for _ in range(ncidr // 2)] +
